@@ -83,6 +83,19 @@ fn snippets() -> Vec<String> {
         "\\divide\\dimen1 by -1 ",
         "\\ifcase\\count1 ",
         "\\ifnum\\dimen1=\\skip1 ",
+        "\\divide\\count1 by -1 ",
+        "\\multiply\\count1 by -1 ",
+        "\\count2=-\\count1 ",
+        "\\advance\\count1 by \\count1 ",
+        "\\ifnum\\count1<-\\count1 \\fi ",
+        "\\dimen1=\\count1 pt ",
+        "\\dimen1=-1073741823sp \\advance\\dimen1 by -1073741823sp \\advance\\dimen1 by -2sp ",
+        "\\multiply\\dimen1 by -1 ",
+        "\\dimen2=-\\dimen1 ",
+        "\\the\\dimen1 ",
+        "\\skip1=\\dimen1 plus \\dimen1 minus \\dimen1 ",
+        "\\divide\\skip1 by -1 ",
+        "\\the\\skip1 ",
     ] {
         v.push(s.to_string());
     }
@@ -203,6 +216,42 @@ fn regression_inputs() -> Vec<String> {
     v
 }
 
+/// Every arithmetic primitive on every register kind with the register and the operand at the
+/// limits of 32-bit arithmetic (-2^31 is only reachable by letting \\advance wrap).
+fn limit_programs() -> Vec<String> {
+    let set_count = |v: i64| -> String {
+        match v {
+            -2147483648 => "\\count1=-2147483647 \\advance\\count1 by -1 ".to_string(),
+            v => format!("\\count1={} ", v),
+        }
+    };
+    let set_dimen = |v: i64| -> String {
+        // dimensions beyond +-(2^30-1) are only reachable by \\advance
+        match v {
+            -2147483648 => "\\dimen1=-1073741823sp \\advance\\dimen1 by -1073741823sp \\advance\\dimen1 by -2sp ".to_string(),
+            2147483647 => "\\dimen1=1073741823sp \\advance\\dimen1 by 1073741823sp \\advance\\dimen1 by 1sp ".to_string(),
+            -2147483647 => "\\dimen1=-1073741823sp \\advance\\dimen1 by -1073741823sp \\advance\\dimen1 by -1sp ".to_string(),
+            v => format!("\\dimen1={}sp ", v),
+        }
+    };
+    let values: [i64; 8] = [-2147483648, -2147483647, -1073741824, -1, 0, 1, 1073741823, 2147483647];
+    let operands = ["-1", "0", "1", "2", "-2", "2147483647", "-2147483647", "\\count2 ", "-\\count2 "];
+    let mut v = vec![];
+    for val in values {
+        for op in ["\\advance", "\\multiply", "\\divide"] {
+            for operand in operands {
+                let pre2 = "\\count2=-2147483647 \\advance\\count2 by -1 ";
+                v.push(format!("{}{}{}\\count1 by {}\\relax \\the\\count1 \\count3=-\\count1 \\ifnum\\count1<-\\count1 \\fi \\ifodd\\count1 \\fi \\ifcase\\count1 \\or\\fi ", pre2, set_count(val), op, operand));
+                if (-1073741823..=1073741823).contains(&val) || val.abs() >= 2147483647 {
+                    v.push(format!("{}{}{}\\dimen1 by {}\\relax \\the\\dimen1 \\dimen2=-\\dimen1 \\dimen2=2\\dimen1 \\dimen2=.5\\dimen1 \\count3=\\dimen1 \\skip2=\\dimen1 plus \\dimen1 minus -\\dimen1 \\the\\skip2 ", pre2, set_dimen(val), op, if op == "\\advance" { format!("{}sp", operand.trim_end()) } else { operand.to_string() }));
+                    v.push(format!("{}{}\\skip1=\\dimen1 plus \\dimen1 minus \\dimen1 {}\\skip1 by {}\\relax \\the\\skip1 \\skip2=-\\skip1 \\dimen2=\\skip1 ", pre2, set_dimen(val), op, if op == "\\advance" { "\\skip1 ".to_string() } else { operand.to_string() }));
+                }
+            }
+        }
+    }
+    v
+}
+
 fn oracle_text(ctx: &Ctx, text: String, nelems: usize, case: &mut Case) -> Verdict {
     case.note = Some(text.clone());
     let opts = VmOptions { files: files(), terminal: vec!["terminal line one\n".into(), "{second\n".into(), "third}\n".into()], budget: 3_000, ..Default::default() };
@@ -282,6 +331,8 @@ pub fn run(ctx: &Ctx) {
     let vocab = vocabulary();
     let snips = snippets();
     run_list(ctx, "regression_inputs", regression_inputs(), |t: &String, case| oracle_text(ctx, t.clone(), 2, case));
+    let limits: Vec<String> = limit_programs().into_iter().flat_map(|p| ["", "\\scrollmode ", "\\batchmode "].into_iter().map(move |m| format!("{}{}", m, p))).collect();
+    run_list(ctx, "limit_arithmetic", limits, |t: &String, case| oracle_text(ctx, t.clone(), 2, case));
     ctx.extra("soup_short", "vocabulary_size", serde_json::json!(vocab.len()));
     ctx.extra("soup_short", "snippets", serde_json::json!(snips.len()));
     let n = ctx.tier.pick(120_000u64, 3_000_000u64);
